@@ -1302,6 +1302,18 @@ def _excl_upper_bound(cx, b, e, depth=0):
     if e[0] == "bin" and e[1] in ("Add", "AddWithOverflow"):
         a, c = _excl_upper_bound(cx, b, e[2], depth + 1), _excl_upper_bound(cx, b, e[3], depth + 1)
         return a + c - 1 if a and c else None
+    if e[0] == "call" and re.fullmatch(r"(u8|u16|u32|u64|usize)::(leading_zeros|trailing_zeros|count_ones|count_zeros)", e[1]):
+        return {"u8": 8, "u16": 16, "u32": 32, "u64": 64, "usize": 64}[e[1].split("::")[0]] + 1
+    if e[0] == "bin" and e[1] in ("Sub", "SubWithOverflow"):
+        a = _excl_upper_bound(cx, b, e[2], depth + 1)
+        return a   # a - b <= a wherever the subtraction itself does not wrap (C03.U)
+    if e[0] == "call" and e[1] == "Option::map_or" and len(e[2]) == 3 and e[2][2][0] == "agg" and str(e[2][2][1]).startswith("closure:"):
+        try:
+            cb = R.body(str(e[2][2][1])[len("closure:"):])
+            d, r = _excl_upper_bound(cx, b, e[2][1], depth + 1), _excl_upper_bound(cx, cb, cb.local_expr(0), depth + 1)
+            return max(d, r) if d and r else None
+        except Exception:
+            return None
     if e[0] == "call" and e[1].split("::")[-1] == "min" and len(e[2]) == 2:
         cs = [x for x in (_excl_upper_bound(cx, b, e[2][0], depth + 1), _excl_upper_bound(cx, b, e[2][1], depth + 1)) if x]
         return min(cs) if cs else None
@@ -1319,10 +1331,10 @@ def _excl_upper_bound(cx, b, e, depth=0):
         return None
     if sh == "arg2" and "{closure#" in b.path:
         # the element parameter of a closure handed to an iterator adaptor in the enclosing function
-        pbs = [x for x in R.all_bodies() if x.path == b.path.rsplit("::{closure#", 1)[0]]
-        if not pbs:
+        try:
+            pb = R.body(b.path.rsplit("::{closure#", 1)[0])   # also a helper whose code was inlined into its caller
+        except Exception:
             return None
-        pb = pbs[0]
 
         def _range_of(ex):
             for _ in range(3):
@@ -1331,6 +1343,8 @@ def _excl_upper_bound(cx, b, e, depth=0):
             return ex if ex and ex[0] == "agg" and ex[1] == "Range" else None
         for l2, t2 in pb.calls():
             ce = pb.call_expr(t2)
+            if not (isinstance(ce, tuple) and len(ce) >= 3 and ce[0] == "call" and isinstance(ce[2], (list, tuple))):
+                continue
             if len(ce[2]) == 2 and show(ce[2][1]).startswith("closure:" + b.path) and ce[1].split("::")[-1] in ("find", "rfind", "any", "all", "position", "for_each", "take_while", "skip_while", "filter", "map"):
                 it = ce[2][0]
                 rg = _range_of(it)
@@ -1340,6 +1354,9 @@ def _excl_upper_bound(cx, b, e, depth=0):
                         rg = rg or _range_of(pb.call_expr(node) if kind == "call" else pb.rvalue_expr(node["rv"]) if kind == "assign" else None)
                 if rg is not None:
                     return _excl_upper_bound_hi(cx, pb, rg[2][1], depth + 1)
+            # `iter.find(..).map_or(d, |i| ..)` and friends: the closure's parameter is an element the iterator produced
+            if ce[2] and show(ce[2][-1]).startswith("closure:" + b.path) and ce[1].split("::")[-1] in ("map_or", "map", "is_some_and", "and_then", "filter", "map_or_else", "unwrap_or_else"):
+                return _excl_upper_bound(cx, pb, b_mk_proj_some(ce[2][0]), depth + 1)
         return None
     m = re.fullmatch(r"var(\d+)", sh)
     if m:
@@ -1353,6 +1370,11 @@ def _excl_upper_bound(cx, b, e, depth=0):
             bs.append(x)
         return max(bs) if bs else None
     return None
+
+
+def b_mk_proj_some(e):
+    from mirlib import b_mk_proj
+    return b_mk_proj(e, ("@Some", "0"))
 
 
 def _excl_upper_bound_hi(cx, b, hi, depth):
@@ -2265,7 +2287,7 @@ ARITH_TABLE = [
     (r".*packet_sender::PacketSender::(enqueue_packet|emit_packet)", "Add", r"arg1\.(total_size|alloc),", "byte counters of packets held in memory: bounded by the address space"),
     (r".*HalfConnection::emit_data_frames", "Add", r"arg2,(arg3|mul\(arg3,shl\(1,)", "now_ms + rtt_ms * 2^k, k <= MAX_SEND_COUNT (C12.q): the RTT estimate is a weighted mean of locally measured samples, each at most the clock reading"),
     (r".*HalfConnection::emit_data_frames", "Mul", r"arg3,shl\(1,", "rtt_ms * 2^k with k <= MAX_SEND_COUNT (C12.q, C03.O)"),
-    (r".*HalfConnection::step", "Mul", r"SendRateComp::rtt_ms\(.*\),.*\),4", "4 * RTT estimate: the estimate is a weighted mean of locally measured samples, each at most the clock reading"),
+    (r".*HalfConnection::step", "Mul", r"SendRateComp::rtt_ms\(", "4 * RTT estimate: the estimate is a weighted mean of locally measured samples, each at most the clock reading"),
     (r".*recv_rate_set::RecvRateSet::rate_limited_update::\{closure#0\}", "Mul", r"2,arg1\.1", "2 * rtt_ms (captured parameter of rate_limited_update, the RTT estimate: at most the clock reading)"),
     (r".*packet_receiver::PacketReceiver::handle_datagram", "Add", r"packet_count,1", "packets of one channel inside the receive window: at most the window size (4096)"),
     (r".*build::AckFrameBuilder::add", "Add", r"arg1\.count,1", "ack groups in one frame: the emitter closes the frame at MAX_FRAME_SIZE (161 groups)"),
@@ -2304,7 +2326,15 @@ def check_arith(cx, iid="C03.Q"):
                 from domain import type_width
                 T = type_width(str(rv.get("ty", "")).split(",")[0].strip("( "))
                 wa, wb = bw.operand(b, rv["a"], ()), bw.operand(b, rv["b"], ())
-                taint = tainted(es)
+                # multi-definition locals are read through their definitions (one level) for taint and table matching
+                ctx = es
+                for mv in sorted(set(re.findall(r"\bvar(\d+)\b", es))):
+                    for dloc, kind, node in b.defs.get(int(mv), []):
+                        try:
+                            ctx += " ; var%s=%s" % (mv, show(b.rvalue_expr(node["rv"])) if kind == "assign" else show(b.call_expr(node)))
+                        except Exception:
+                            pass
+                taint = tainted(ctx)
                 status = None
                 fits = (max(wa, wb) + 1 <= T) if op == "Add" else (wa + wb <= T)
                 if fits and not taint:
@@ -2319,7 +2349,7 @@ def check_arith(cx, iid="C03.Q"):
                     status = "a fragment count or length times the fragment size: bounded by the address space"
                 reason = None
                 if not status:
-                    nes = norm_vars(es)
+                    nes = norm_vars(ctx)
                     for frx, o, orx, why in ARITH_TABLE:
                         if o == op and re.fullmatch(frx, b.path) and re.search(orx, nes):
                             status, reason = "reviewed", why
@@ -2396,13 +2426,26 @@ def check_underflow(cx, iid="C03.U"):
                 A, B = show(e[2]), show(e[3])
                 ty = str(rv.get("ty", "")).split(",")[0].strip("( ")
                 status = reason = None
+
+                def num(x):
+                    if x.isdigit():
+                        return int(x)
+                    if re.fullmatch(r"[\w:]+", x):
+                        try:
+                            return D.const_int(x)
+                        except Exception:
+                            return None
+                    return None
+                if not B.isdigit() and num(B) is not None:
+                    B = str(num(B))     # a named constant subtrahend is its value
                 # structural
-                m = re.fullmatch(r"\[T\]::len\(Box::new\((array\{.*\}|repeat:(\d+)\{.*\})\)\)", A)
+                m = re.fullmatch(r"\[T\]::len\(Box::new\((array\{.*\}|repeat:(\d+)\{.*\})\)(?:\[RangeFull\{\}\])?\)", A)
                 if m and B.isdigit():
                     n = int(m.group(2)) if m.group(2) else None
                     if n is None:
                         try:
-                            n = len(e[2][2][0][2][0][2])
+                            from props.shared import _split_top
+                            n = len(_split_top(m.group(1)[len("array{"):-1]))
                         except Exception:
                             n = None
                     if n is not None and int(B) <= n:
@@ -2426,6 +2469,10 @@ def check_underflow(cx, iid="C03.U"):
                                 c = None
                             if c is not None and c >= int(B):
                                 status = "x + %d - %s" % (c, B)
+                if not status and A.isdigit():
+                    ubB = _excl_upper_bound(cx, b, e[3])
+                    if ubB is not None and ubB - 1 <= int(A):
+                        status = "%s minus a value of at most %d" % (A, ubB - 1)
                 # established
                 if not status:
                     fa = fa or cx.fa(b)
@@ -2437,9 +2484,16 @@ def check_underflow(cx, iid="C03.U"):
                                 return True
                             if B == "1" and l in ("ne(0,%s)" % A, "lt(0,%s)" % A):
                                 return True
-                            mm2 = re.fullmatch(r"l([te])\((\d+),(.*)\)", l)
-                            if mm2 and mm2.group(3) == A and B.isdigit() and int(mm2.group(2)) + (1 if mm2.group(1) == "t" else 0) >= int(B):
+                            mm2 = re.fullmatch(r"l([te])\(([\w:]+),(.*)\)", l)
+                            if mm2 and mm2.group(3) == A and B.isdigit() and num(mm2.group(2)) is not None and num(mm2.group(2)) + (1 if mm2.group(1) == "t" else 0) >= int(B):
                                 return True
+                            # match a.cmp(&b) { Greater => a - b, Less => b - a, .. }
+                            mm3 = re.fullmatch(r"is\(\w+::cmp\((.*)\),(Greater|Less|Equal)\)", l)
+                            if mm3:
+                                from props.shared import _split_top
+                                ops = _split_top(mm3.group(1))
+                                if len(ops) == 2 and ((ops == [A, B] and mm3.group(2) in ("Greater", "Equal")) or (ops == [B, A] and mm3.group(2) in ("Less", "Equal"))):
+                                    return True
                         return False
                     if alts and all(holds(a) for a in alts):
                         status = "established on every path: %s <= %s" % (B[:40], A[:40])
